@@ -37,7 +37,7 @@ ASSUMPTIONS = ["texts are what rope's own file reader hands to the scanners: dec
                "valid source = accepted by compile() of the running 3.12 interpreter",
                "dotted expression = chain of identifiers joined by '.' (ast Name/Attribute); primaries with calls, "
                "subscripts or literals as head are not judged"]
-BUDGET = {"quick": (2500, 75), "thorough": (40000, 480)}
+BUDGET = {"quick": (2500, 240), "thorough": (40000, 900)}
 EXHAUSTIVE = {}
 REQUIRE = {"texts_checked": 300, "regions_expected": 20000, "fstrings": 300, "fstring_own_quote": 20,
            "comments": 5000, "lines_in_string": 1000, "lines_in_bracket": 2000, "lines_after_backslash": 100,
